@@ -147,7 +147,10 @@ class WitnessModel(Model):
             return v.members['concrete']
         if attr in ('ndim', 'dims', 'sizes', 'shape', 'size') and v.members.get('dims') == []:
             return {'ndim': 0, 'dims': (), 'sizes': {}, 'shape': (), 'size': 1}[attr]
-        return super().var_attr(interp, v, attr, node)
+        r = super().var_attr(interp, v, attr, node)
+        if attr in ('value', 'values') and isinstance(r, SVar) and v.members.get('dims') == []:
+            r.members['dims'] = []  # the bare number of a 0-d variable is 0-d as well (size 1, shape ())
+        return r
 
     def var_index(self, interp, v, key, node):
         it, rw = items_of(v), rows_of(v)
